@@ -5,16 +5,16 @@ import NssVerif.Model.TabLoad
 namespace Driver.C04
 open Proto Model.Taus Model.Interp Model.TabLoad
 
--- decoded once at program start
-def c1 : CdfTable Float := cdf1
-def c2 : CdfTable Float := cdf2
-def c3 : CdfTable Float := cdf3
-def p1 : PexitTable Float := pexit1
-def p2 : PexitTable Float := pexit2
-def p3 : PexitTable Float := pexit3
+-- decoded lazily, once, on first use (a driver process that never touches the tables starts in milliseconds)
+def c1 : Thunk (CdfTable Float) := Thunk.mk fun _ => cdf1
+def c2 : Thunk (CdfTable Float) := Thunk.mk fun _ => cdf2
+def c3 : Thunk (CdfTable Float) := Thunk.mk fun _ => cdf3
+def p1 : Thunk (PexitTable Float) := Thunk.mk fun _ => pexit1
+def p2 : Thunk (PexitTable Float) := Thunk.mk fun _ => pexit2
+def p3 : Thunk (PexitTable Float) := Thunk.mk fun _ => pexit3
 
-def cdfOf (v : String) : CdfTable Float := if v == "1" then c1 else if v == "2" then c2 else c3
-def pexOf (v : String) : PexitTable Float := if v == "1" then p1 else if v == "2" then p2 else p3
+def cdfOf (v : String) : CdfTable Float := if v == "1" then c1.get else if v == "2" then c2.get else c3.get
+def pexOf (v : String) : PexitTable Float := if v == "1" then p1.get else if v == "2" then p2.get else p3.get
 
 def showE (r : Except Err Float) : String :=
   match r with
